@@ -4,6 +4,7 @@ import NurbsVerif.Lemmas.HullRat
 import NurbsVerif.Lemmas.AssembleHull
 import NurbsVerif.Lemmas.AssembleEnds
 import NurbsVerif.Lemmas.AssembleWF
+import NurbsVerif.Lemmas.LengthSamples
 
 /-!
 # C18  Shapes stay inside the hull of their control points
@@ -455,5 +456,150 @@ example : ClampedOk 2 (fnOf ([0,0,0,1/2,1,1,1] : List ℚ)) 4 where
 /-- … and `evaluate_single` at the right end of the domain is the last control point -/
 example : curvePoint 2 (fnOf ([0,0,0,1/2,1,1,1] : List ℚ)) [[0,0],[1,2],[2,0],[3,1]] 1 = [3, 1] := by decide +kernel
 
+
+/-! ## Length bounds: `operations.length_curve` between the chord and the control polygon
+
+`polylineLength dist pts` is the model of `operations.length_curve` (left fold of
+`dist pts[i] pts[i+1]` starting from `0`; `curveLength` applies it to the sampled points `curveGrid`).
+The distance is `distN N a b = N (b - a)` for an ABSTRACT seminorm `N` on coordinate lists of length
+`d` (`IsSeminorm d N`: non-negative, sub-additive, positively homogeneous).  The Euclidean norm over
+`ℝ` – what `linalg.point_distance` computes in floating point – is an instance; `l1norm` is an
+instance over every ordered field (used for the concrete examples over `ℚ`); no square root is taken
+in `K`. -/
+
+/-- the hypothesis on the norm is satisfiable over every ordered field and in every dimension: the sum
+    of the absolute values of the coordinates is a seminorm -/
+theorem l1norm_is_seminorm (d : ℕ) : IsSeminorm d (l1norm : List K → K) := l1norm_isSeminorm d
+
+/-- **A polyline is never shorter than its chord**: for every non-empty list of points (of one
+    dimension) the distance from the first to the last point is at most `length_curve`'s sum of the
+    distances of consecutive points. -/
+theorem polyline_ge_chord {N : List K → K} {d : ℕ} (hN : IsSeminorm d N) (pts : List (List K)) (hne : pts ≠ [])
+    (hP : NetOk d pts) :
+    N (vsub (ptsGet pts (pts.length - 1)) (ptsGet pts 0)) ≤ polylineLength (distN N) pts :=
+  Geomdl.polyline_ge_chord hN pts hne hP
+
+/-- **`length_curve` is at least the chord between the first and the last sampled point**, for every
+    non-empty list of sample parameters (`evalpts = curveGrid`). -/
+theorem curve_samples_ge_chord {N : List K → K} {d : ℕ} (hN : IsSeminorm d N) (p : ℕ) (Ul : List K)
+    (P : List (List K)) (hC : CurveWF p d Ul P) (ks : List K) (hne : ks ≠ []) :
+    N (vsub (curvePoint p (fnOf Ul) P (ks.getD (ks.length - 1) 0)) (curvePoint p (fnOf Ul) P (ks.getD 0 0)))
+      ≤ curveLength (distN N) false p (fnOf Ul) P ks :=
+  curveLength_ge_sample_chord hN p Ul P hC ks hne
+
+/-- **The approximate length of a non-rational curve is never less than its end-to-end chord**:
+    clamped curve (`ClampedOk`), samples at `linspace(U_p, U_n, num)` as `evaluate` takes them, at least
+    two samples and a domain longer than the tolerance constant of `linspace` (otherwise `evalpts` is
+    the single start point and the length is `0`); the chord is the one from the first to the last
+    control point. -/
+theorem length_curve_ge_chord {N : List K → K} {d : ℕ} (hN : IsSeminorm d N) (p : ℕ)
+    (Ul : List K) (P : List (List K)) (hC : CurveWF p d Ul P) (hcl : ClampedOk p (fnOf Ul) P.length)
+    (num : ℕ) (hnum : 2 ≤ num) (tol : K) (htol : tol < |fnOf Ul p - fnOf Ul P.length|) :
+    N (vsub (ptsGet P (P.length - 1)) (ptsGet P 0))
+      ≤ curveLength (distN N) false p (fnOf Ul) P (linspace (fnOf Ul p) (fnOf Ul P.length) num tol) :=
+  Geomdl.length_curve_ge_chord hN p Ul P hC hcl num hnum tol htol
+
+/-- **A polyline through a subsequence of the vertices of a polygon (in order) is not longer than
+    the polygon.** -/
+theorem polyline_subsequence_le {N : List K → K} {d : ℕ} (hN : IsSeminorm d N) {l₁ l₂ : List (List K)}
+    (h : l₁.Sublist l₂) (hP : NetOk d l₂) :
+    polylineLength (distN N) l₁ ≤ polylineLength (distN N) l₂ :=
+  polyline_sublist_le hN h hP
+
+/-- **Corner cutting does not lengthen a polygon**: if every new vertex is a convex combination
+    `Q_i = α_i P_i + (1 - α_i) P_{i-1}`, `0 ≤ α_i ≤ 1`, of two consecutive old vertices (vertex
+    sequences as functions of the index), the first `m` edges of the new polygon are together not
+    longer than the first `m` edges of the old one. -/
+theorem corner_cutting_does_not_lengthen {N : List K → K} {d : ℕ} (hN : IsSeminorm d N) (Pf Qf : ℕ → List K) (α : ℕ → K)
+    (hP : ∀ i, (Pf i).length = d) (hQ : ∀ i, (Qf i).length = d) (h0 : ∀ i, 0 ≤ α i) (h1 : ∀ i, α i ≤ 1)
+    (hcomb : ∀ i j, (Qf i).getD j 0 = α i * (Pf i).getD j 0 + (1 - α i) * (Pf (i - 1)).getD j 0) (m : ℕ) :
+    ∑ i ∈ range m, N (vsub (Qf (i + 1)) (Qf i)) ≤ ∑ i ∈ range m, N (vsub (Pf (i + 1)) (Pf i)) :=
+  corner_cut_sum hN Pf Qf α hP hQ h0 h1 hcomb m
+
+/-- the coefficients of knot insertion are convex: `knot_insertion_alpha(u, U, k, x, L)` lies in
+    `[0, 1]` whenever `L + x ≤ k` and `U_k ≤ u < U_{k+1}` (sorted knots) -/
+theorem insertion_alpha_in_unit_interval (U : ℕ → K) (u : K) (k x L : ℕ) (hm : Monotone U) (h1 : U k ≤ u)
+    (h2 : u < U (k + 1)) (hL : L + x ≤ k) : 0 ≤ insAlpha U u k x L ∧ insAlpha U u k x L ≤ 1 :=
+  insAlpha_mem U u k x L hm h1 h2 hL
+
+/-- **Knot insertion does not lengthen the control polygon**: `helpers.knot_insertion` with `r`
+    copies of `u` in the span `k` (`U_k ≤ u < U_{k+1}`, `s` the multiplicity passed, `r + s ≤ p`), any
+    degree, any seminorm. -/
+theorem insertion_does_not_lengthen_control_polygon {N : List K → K} {d : ℕ} (hN : IsSeminorm d N)
+    (p : ℕ) (U : ℕ → K) (P : List (List K)) (u : K) (r s k : ℕ) (hP : NetOk d P) (hpk : p ≤ k) (hk : k < P.length)
+    (hm : Monotone U) (h1 : U k ≤ u) (h2 : u < U (k + 1)) (hrs : r + s ≤ p) :
+    polylineLength (distN N) (knotInsertion p U P u r s k) ≤ polylineLength (distN N) P :=
+  knotInsertion_polygon_le U u P k p s d hP hpk hk hN hm h1 h2 r hrs
+
+/-- **No admissible sequence of knot insertions lengthens the control polygon** (each request
+    `(u, r, s)` applied with the span the library's search finds, as in C04's
+    `insert_sequence_preserves_curve`). -/
+theorem insert_sequence_does_not_lengthen_control_polygon {N : List K → K} {d : ℕ} (hN : IsSeminorm d N) (p : ℕ)
+    (reqs : List (K × ℕ × ℕ)) (st : List K × List (List K)) (hC : CurveWF p d st.1 st.2) (hok : ReqsOk p st reqs) :
+    polylineLength (distN N) (reqs.foldl (insStep p) st).2 ≤ polylineLength (distN N) st.2 :=
+  insert_sequence_polygon_le hN p reqs st hC hok
+
+/-- **A parameter whose knot has multiplicity at least `p` is interpolated by a control point** (the
+    fact that makes the samples vertices of the refined polygon): `HasBlock p U u` = `p` consecutive
+    knots equal `u`. -/
+theorem curve_point_at_full_multiplicity_knot (p d : ℕ) (Ul : List K) (P : List (List K)) (hC : CurveWF p d Ul P) (u : K)
+    (hlo : fnOf Ul p ≤ u) (hhi : u ≤ fnOf Ul P.length) (hb : HasBlock p (fnOf Ul) u) :
+    curvePoint p (fnOf Ul) P u = ptsGet P (sampleIdx p (fnOf Ul) P.length u) ∧
+      sampleIdx p (fnOf Ul) P.length u < P.length :=
+  curvePoint_of_block p d Ul P hC u hlo hhi hb
+
+/-- **The polyline through the points of a curve at ANY increasing parameters of the closed domain is
+    not longer than the control polygon** – non-rational curve of degree `≥ 1`; the right end `U_n`
+    of the domain may be among the parameters if the curve is clamped there. -/
+theorem polyline_le_control_polygon {N : List K → K} {d : ℕ} (hN : IsSeminorm d N) (p : ℕ) (hp : 1 ≤ p)
+    (Ul : List K) (P : List (List K)) (hC : CurveWF p d Ul P) (us : List K) (hsorted : us.Pairwise (· < ·))
+    (hdom : ∀ u ∈ us, fnOf Ul p ≤ u ∧ u ≤ fnOf Ul P.length)
+    (hend : fnOf Ul P.length ∈ us → ∀ i, P.length ≤ i → i < P.length + p → fnOf Ul i = fnOf Ul P.length) :
+    polylineLength (distN N) (us.map (curvePoint p (fnOf Ul) P)) ≤ polylineLength (distN N) P :=
+  curve_polyline_le_polygon hN p hp Ul P hC us hsorted hdom hend
+
+/-- **The approximate length of a non-rational curve is never more than its control-polygon length**:
+    `length_curve` of the points sampled at `linspace(U_p, U_n, num)` – every sample size, every value
+    of `linspace`'s tolerance constant – for a curve of degree `≥ 1` that is clamped at the end. -/
+theorem length_curve_le_control_polygon {N : List K → K} {d : ℕ} (hN : IsSeminorm d N) (p : ℕ) (hp : 1 ≤ p)
+    (Ul : List K) (P : List (List K)) (hC : CurveWF p d Ul P)
+    (hend : ∀ i, P.length ≤ i → i < P.length + p → fnOf Ul i = fnOf Ul P.length) (num : ℕ) (tol : K) :
+    curveLength (distN N) false p (fnOf Ul) P (linspace (fnOf Ul p) (fnOf Ul P.length) num tol)
+      ≤ polylineLength (distN N) P :=
+  length_curve_le_polygon hN p hp Ul P hC hend num tol
+
+/-! ### concrete values (ℓ¹ norm over ℚ): the clamped quadratic of the examples above, five samples -/
+
+/-- chord `4 <` approximate length `11/2 <` control polygon length `8`: neither bound is vacuous -/
+example : l1norm (vsub (ptsGet ([[0,0],[1,2],[2,0],[3,1]] : List (List ℚ)) 3) (ptsGet [[0,0],[1,2],[2,0],[3,1]] 0)) = 4 ∧
+    curveLength (distN l1norm) false 2 (fnOf ([0,0,0,1/2,1,1,1] : List ℚ)) [[0,0],[1,2],[2,0],[3,1]]
+      (linspace 0 1 5 (1/10000000)) = 11/2 ∧
+    polylineLength (distN l1norm) ([[0,0],[1,2],[2,0],[3,1]] : List (List ℚ)) = 8 := by decide +kernel
+
+/-- inserting `1/4` once cuts the corner `(1,2)`: the control polygon gets strictly shorter (`7 < 8`) -/
+example : knotInsertion 2 (fnOf ([0,0,0,1/2,1,1,1] : List ℚ)) [[0,0],[1,2],[2,0],[3,1]] (1/4) 1 0 2
+      = [[0,0],[1/2,1],[5/4,3/2],[2,0],[3,1]] ∧
+    polylineLength (distN l1norm) (knotInsertion 2 (fnOf ([0,0,0,1/2,1,1,1] : List ℚ)) [[0,0],[1,2],[2,0],[3,1]] (1/4) 1 0 2) = 7 := by
+  decide +kernel
+
+/-- the hypotheses of `length_curve_le_control_polygon` / `length_curve_ge_chord` hold for that curve
+    (`CurveWF` and `ClampedOk` are the examples above); the theorem applied -/
+example : curveLength (distN l1norm) false 2 (fnOf ([0,0,0,1/2,1,1,1] : List ℚ)) [[0,0],[1,2],[2,0],[3,1]]
+      (linspace (fnOf ([0,0,0,1/2,1,1,1] : List ℚ) 2) (fnOf ([0,0,0,1/2,1,1,1] : List ℚ) 4) 5 (1/10000000))
+    ≤ polylineLength (distN l1norm) ([[0,0],[1,2],[2,0],[3,1]] : List (List ℚ)) := by
+  have hC : CurveWF 2 2 ([0,0,0,1/2,1,1,1] : List ℚ) [[0,0],[1,2],[2,0],[3,1]] :=
+    { mono := mono_of_pairwise _ (by decide +kernel), len := by simp, pn := by simp, last := by decide +kernel,
+      net := by intro pt hpt; simp at hpt; rcases hpt with h | h | h | h <;> simp [h] }
+  refine length_curve_le_control_polygon (l1norm_is_seminorm 2) 2 (by omega) _ _ hC ?_ 5 _
+  intro i h1 h2
+  simp only [List.length_cons, List.length_nil] at h1 h2
+  obtain rfl | rfl : i = 4 ∨ i = 5 := by omega
+  all_goals decide +kernel
+
+/-- a strictly increasing parameter list that is not a `linspace`, with interior parameters on and off
+    knots: hypotheses of `polyline_le_control_polygon` -/
+example : ([0, 1/3, 1/2, 9/10] : List ℚ).Pairwise (· < ·) ∧
+    ∀ u ∈ ([0, 1/3, 1/2, 9/10] : List ℚ), fnOf ([0,0,0,1/2,1,1,1] : List ℚ) 2 ≤ u ∧ u ≤ fnOf ([0,0,0,1/2,1,1,1] : List ℚ) 4 := by
+  decide +kernel
 
 end C18
